@@ -45,7 +45,7 @@ func objectActivation(service *serviceImpl, session Session, serviceID, objectID
 type pendingObject struct{}
 
 func (p pendingObject) Receive(m *net.Message, from Channel) error {
-	return ErrObjectNotFound
+	return from.SendError(m, ErrObjectNotFound)
 }
 
 func (p pendingObject) Activate(activation Activation) error {
